@@ -509,18 +509,15 @@ def rule_ambient(c: Ctx) -> RuleResult:
     return r
 
 
-def _expand_args(c: Ctx, f: Func, v: ast.AST, at: ast.AST) -> ast.AST:
-    """v with the single-definition call-free locals in the arguments of its calls inlined (description = token.children)."""
-    import copy
+def _expand_arg(c: Ctx, f: Func, a: ast.AST, at: ast.AST) -> ast.AST:
+    """A bare local name used as a call argument, replaced by its single call-free definition (description = token.children)."""
     from ..interproc import expand
-    v = copy.deepcopy(v)
-    for n in ast.walk(v):
-        if isinstance(n, ast.Call):
-            try:
-                n.args = [expand(c, f, a, at, depth=1) if isinstance(a, ast.Name) else a for a in n.args]
-            except Exception:
-                pass
-    return v
+    if not isinstance(a, ast.Name):
+        return a
+    try:
+        return expand(c, f, a, at, depth=1)
+    except Exception:          # noqa: BLE001
+        return a
 
 
 def rule_rwrite(c: Ctx) -> RuleResult:
@@ -565,19 +562,23 @@ def rule_rwrite(c: Ctx) -> RuleResult:
                     val = cs.node.args[1]
                     if isinstance(val, ast.Name):
                         # a local holding the alt text: inline its (single) definition - calls are kept as they are
-                        vals = [_expand_args(c, f, n.value, n) for n in own_nodes(f.node)
-                                if isinstance(n, ast.Assign) and any(isinstance(t, ast.Name) and t.id == val.id for t in n.targets)]
+                        pairs = [(n.value, n) for n in own_nodes(f.node)
+                                 if isinstance(n, ast.Assign) and any(isinstance(t, ast.Name) and t.id == val.id for t in n.targets)]
                     else:
-                        vals = [_expand_args(c, f, val, cs.node)]
+                        pairs = [(val, c.cfg(f).stmt_of(cs.node) if hasattr(c.cfg(f), "stmt_of") else cs.node)]
+                    vals = [v_ for v_, _ in pairs]
+                    at_of = {id(v_): a_ for v_, a_ in pairs}
 
-                    def alt_ok(v: ast.AST) -> bool:
+                    def alt_ok(v: ast.AST, at: ast.AST | None = None) -> bool:
+                        at = at_of.get(id(v), at)
                         if isinstance(v, ast.Constant):
                             return True
                         if isinstance(v, ast.IfExp):
-                            return alt_ok(v.body) and alt_ok(v.orelse)
-                        if (isinstance(v, ast.Call) and isinstance(v.func, ast.Attribute) and v.func.attr == "renderInlineAsText"
-                                and bool(v.args) and U(v.args[0]).endswith(".children") and U(v.args[0]).split(".")[0] == U(recv)):
-                            return True
+                            return alt_ok(v.body, at) and alt_ok(v.orelse, at)
+                        if isinstance(v, ast.Call) and isinstance(v.func, ast.Attribute) and v.func.attr == "renderInlineAsText" and bool(v.args):
+                            a0 = _expand_arg(c, f, v.args[0], at) if at is not None else v.args[0]
+                            if U(a0).endswith(".children") and U(a0).split(".")[0] == U(recv):
+                                return True
                         # self._altText(token, ...): a private helper whose every return is renderInlineAsText(<its token param>.children)
                         if isinstance(v, ast.Call):
                             cs2 = c.cg.site_of.get(v)
